@@ -601,6 +601,31 @@ theorem step_noCommon {st : St} (hi : Inv st) (hnc : NoCommon st.db.users) (op :
     intro u hu huid
     exact put_setUser_noCommon hi hnc { u with secure := b } true
       (recInv_put_same hi.recs ⟨u, hu, rfl, rfl⟩) (fun m hm => ⟨u, hu, rfl, hm⟩)
+  | clearHosts id =>
+    simp only [step]
+    apply withUser_noCommon hnc
+    intro u hu huid
+    exact put_setUser_noCommon hi hnc { u with hostmasks := [] } true
+      (recInv_put_same hi.recs ⟨u, hu, rfl, rfl⟩) (fun m hm => by cases hm)
+  | setName id name =>
+    simp only [step]
+    apply withUser_noCommon hnc
+    intro u hu huid
+    split
+    · exact hnc
+    · rename_i hlb
+      have hn : hasLineBreak name = false := by simpa using hlb
+      dsimp only
+      refine put_setUser_noCommon hi hnc { u with name := name } true ⟨putUser_nodup hi.recs.nodup, ?_, ?_⟩
+        (fun m hm => ⟨u, hu, rfl, hm⟩)
+      · intro v hv
+        rcases mem_putUser' hi.recs.nodup hv with e | e
+        · rw [e]; exact hn
+        · exact hi.recs.names v e.1
+      · intro v hv
+        rcases mem_putUser' hi.recs.nodup hv with e | e
+        · rw [e]; exact hi.recs.ids u hu
+        · exact hi.recs.ids v e.1
   | load id name sec masks =>
     simp only [step]
     have h1 : NoCommon (setUser st { id := id, name := name, secure := sec, hostmasks := masks.foldl masksAdd [] } false).1.db.users :=
